@@ -29,7 +29,7 @@ OUT_OF_SCOPE = {"xgi.drawing.draw:draw_directed_dyads": "not among the functions
 def run(ctx):
     repo = ctx.repo
     res = Result(PROP)
-    res.rules = ["K1", "K2", "K5", "L-KEYS", "L-ORDER"]
+    res.rules = ["K1", "K2", "K5", "L-KEYS", "L-ORDER", "L-RANGE"]
     res.explanation = (
         "Narrow claim: kind inference (labels vs positions) over the layout and drawing modules, key provenance of the "
         "dict every layout returns, and agreement of the permutation applied to per-edge style arrays and patches. "
@@ -53,7 +53,98 @@ def run(ctx):
         check_keys(repo, res, fn)
     res.floor("layout functions", n, 9)
     check_order(repo, res)
+    check_range(repo, res, fns)
     return res
+
+
+EXTREME = {"max": "max", "amax": "max", "nanmax": "max", "min": "min", "amin": "min", "nanmin": "min"}
+RANGE_POSITIVE_EXAMPLE = """
+def _rescale(arg, lo_out, hi_out):
+    lo, hi = arg.min(), arg.max()
+    return lo_out + (arg - lo) * (hi_out - lo_out) / (hi - lo)
+"""
+
+
+def _extreme_of(fn_node, e, depth=0):
+    """('max'|'min', text of the operand) if e is max(x) / x.max() / np.max(x) (through single local assignments)."""
+    if depth > 3:
+        return None
+    if isinstance(e, ast.Call):
+        name = getattr(e.func, "attr", getattr(e.func, "id", None))
+        if name in EXTREME:
+            if isinstance(e.func, ast.Attribute) and not e.args:
+                return EXTREME[name], unparse(e.func.value)
+            if isinstance(e.func, ast.Attribute) and isinstance(e.func.value, ast.Name) and e.func.value.id in ("np", "numpy") and e.args:
+                return EXTREME[name], unparse(e.args[0])
+            if isinstance(e.func, ast.Name) and e.args:
+                return EXTREME[name], unparse(e.args[0])
+    if isinstance(e, ast.Name):
+        found = []
+        for st in own_statements(fn_node):
+            if isinstance(st, ast.Assign):
+                for t in st.targets:
+                    if isinstance(t, ast.Name) and t.id == e.id:
+                        found.append(st.value)
+                    elif isinstance(t, (ast.Tuple, ast.List)) and isinstance(st.value, (ast.Tuple, ast.List)) and len(t.elts) == len(st.value.elts):
+                        for a, b in zip(t.elts, st.value.elts):
+                            if isinstance(a, ast.Name) and a.id == e.id:
+                                found.append(b)
+        if len(found) == 1:
+            return _extreme_of(fn_node, found[0], depth + 1)
+    return None
+
+
+def range_divisions(fn_node):
+    """Divisions whose denominator is max(x) - min(x) of one operand x, with whether a test on the two extremes guards them."""
+    par = {}
+    for p in ast.walk(fn_node):
+        for ch in ast.iter_child_nodes(p):
+            par[ch] = p
+    out = []
+    for n in ast.walk(fn_node):
+        if isinstance(n, ast.BinOp) and isinstance(n.op, (ast.Div, ast.FloorDiv, ast.Mod)):
+            d = n.right
+            if isinstance(d, ast.Name):
+                defs = [st.value for st in own_statements(fn_node) if isinstance(st, ast.Assign) and any(isinstance(t, ast.Name) and t.id == d.id for t in st.targets)]
+                if len(defs) == 1:
+                    d = defs[0]
+            if isinstance(d, ast.BinOp) and isinstance(d.op, ast.Sub):
+                a, b = _extreme_of(fn_node, d.left), _extreme_of(fn_node, d.right)
+                if a and b and a[0] == "max" and b[0] == "min" and a[1] == b[1]:
+                    names = {x.id for x in ast.walk(d) if isinstance(x, ast.Name)} | {x.id for x in ast.walk(n.right) if isinstance(x, ast.Name)}
+                    guarded = False
+                    p = n
+                    while p in par:
+                        p = par[p]
+                        if isinstance(p, (ast.If, ast.IfExp, ast.While)):
+                            tn = {x.id for x in ast.walk(p.test) if isinstance(x, ast.Name)}
+                            if tn & names and any(isinstance(c, ast.Compare) for c in ast.walk(p.test)):
+                                guarded = True
+                    # an earlier early exit on the degenerate range also guards it
+                    for st in own_statements(fn_node):
+                        if isinstance(st, ast.If) and st.lineno < n.lineno and any(isinstance(x, (ast.Return, ast.Raise)) for x in st.body):
+                            tn = {x.id for x in ast.walk(st.test) if isinstance(x, ast.Name)}
+                            if tn & names and any(isinstance(c, ast.Compare) for c in ast.walk(st.test)):
+                                guarded = True
+                    out.append((n, a[1], guarded))
+    return out
+
+
+def check_range(repo, res, fns):
+    """L-RANGE: a rescaling that divides by max(x) - min(x) handles the constant input (all sizes equal is the ordinary
+    case of a regular hypergraph); otherwise every marker size / line width becomes NaN and nothing is drawn."""
+    pos = ast.parse(RANGE_POSITIVE_EXAMPLE).body[0]
+    hits = range_divisions(pos)
+    if len(hits) != 1 or hits[0][2]:
+        raise AnalysisError("L-RANGE self-check: the embedded positive example is no longer recognised")
+    n = 0
+    for fn in fns:
+        for node, operand, guarded in range_divisions(fn.node):
+            n += 1
+            res.inst("L-RANGE", f"{fn.fq}:{node.lineno} division by max-min of `{operand}` is guarded", guarded)
+            if not guarded:
+                res.add(mk_finding(PROP, "L-RANGE", fn, node, f"{fn.qualname}: `{unparse(node, 70)}` divides by the range max-min of `{operand}` without a test for the constant case; when all values are equal (e.g. degrees of a regular hypergraph) the result is NaN and the nodes or lines it sizes are not rendered", role=operand))
+    res.inst("L-RANGE", f"{len(fns)} drawing functions scanned for divisions by a max-min range ({n} found; embedded positive example recognised)", True)
 
 
 def defs_of(fn, name, before=None):
